@@ -142,7 +142,14 @@ func (p *Packet) Size() int {
 // 如果是控制通道，返回nil
 func (p *Packet) Payload() []byte {
 	if p.Channel == ChannelVideo || p.Channel == ChannelAudio {
-		return p.Data[p.PayloadOffset:]
+		end := len(p.Data)
+		if p.Padding && end > p.PayloadOffset {
+			// RFC 3550 5.1: 最后一个字节是填充字节数（包含它自身），填充不属于载荷
+			if n := int(p.Data[end-1]); n > 0 && n <= end-p.PayloadOffset {
+				end -= n
+			}
+		}
+		return p.Data[p.PayloadOffset:end]
 	}
 	return nil
 }
